@@ -369,8 +369,8 @@ def static_tables(model, rep, P):
             soft = set(literal(n_.test.comparators[0]))
     missing = set(keyword.kwlist) - (allowed or set())
     rep.check(allowed is not None and not missing, P + '.KEYW', kwf.loc(), 'keyword() accepts every hard keyword', '%d keywords' % len(allowed or ()), 'keywords %s are rejected by the token printer' % sorted(missing), key=P + '.KEYW|hard')
-    rep.check(soft == set(keyword.softkwlist), P + '.KEYW', kwf.loc(), 'soft keywords %s' % sorted(soft or ()), 'equal to the interpreter\'s soft keyword list',
-              'soft keyword set %s differs from the interpreter\'s %s' % (sorted(soft or ()), sorted(keyword.softkwlist)), key=P + '.KEYW|soft')
+    rep.check(soft is not None and soft >= set(keyword.softkwlist), P + '.KEYW', kwf.loc(), 'soft keywords %s' % sorted(soft or ()), 'cover the interpreter\'s soft keyword list',
+              'soft keyword set %s lacks %s of the interpreter\'s soft keywords: a number or string after such a keyword is not separated from it' % (sorted(soft or ()), sorted(set(keyword.softkwlist) - (soft or set()))), key=P + '.KEYW|soft')
 
 
 QUICK_CHILD = ['Name', 'Int', 'Str', 'Tuple', 'Tuple1', 'Tuple0', 'StarTuple', 'List', 'Dict', 'GeneratorExp', 'NamedExpr', 'Yield', 'YieldFrom', 'Await', 'Lambda', 'IfExp', 'Or', 'And', 'Not',
